@@ -404,7 +404,9 @@ def check(ctx, rep):
             continue
         VSEQ = ("seq", (), ("param", out.vararg), 0)
         init = [e for e in p.evs("newlist") if e.d["ref"] == AL]
-        base_ok = (AL == VSEQ) or (len(init) == 1 and init[0].d["content"] in (("listof", VSEQ, ()), ("listof", ("param", out.vararg), ())))
+        is_list = len(init) == 1 and init[0].d["content"] in (("listof", VSEQ, ()), ("listof", ("param", out.vararg), ()))
+        # *args is a tuple: it can be passed on as it is, but a value can only be inserted into a list copy of it
+        base_ok = is_list or (AL == VSEQ and not positional)
         kd_ok = KD == ("kw", (), ("param", out.kwarg)) or (isinstance(KD, tuple) and KD[0] == "call" and ((KD[1] == ("attr", ("kw", (), ("param", out.kwarg)), "copy") and not KD[2]) or (KD[1] == ("name", "dict") and KD[2] == (("kw", (), ("param", out.kwarg)),))))
         rep.ob("R-CURRY", "the accumulated arguments start from the caller's own *args, **kwargs", base_ok and kd_ok, "positional from %s, keywords from %s" % (fmt(q.deref(p, AL)), fmt(KD)), where_of(out), trace_of(p))
         ins = [e for e in p.calls() if q.recv(e) == AL and q.call_name(e) in roles_MUT]
